@@ -10,7 +10,7 @@ def chk(pid, text, note, technique, design):
 
 
 chk("C06",
-    "Coq theorems for all strings: invalid_import_path rejects exactly the non-canonical names; accepted names are their own normal form and resolve strictly below any root; the rmdir climb never reaches the root. Tie: the function is re-translated from /repo on every run and proved equal to the model (T1); exhaustive/random strings and real remove_filedir runs are evaluated by the model in Coq (T2). Daemon-wide effect confinement is monitored, not proved: in random histories and in scripted symlink scenarios (a request or scan reaching a file through a symlinked directory or file, followed by replication and cleaning) every interposed mutating call must lie, and resolve, inside the root of a node managed by the iterating daemon, and the file outside all roots must survive.",
+    "Coq theorems for all strings: invalid_import_path rejects exactly the non-canonical names; accepted names are their own normal form and resolve strictly below any root; the rmdir climb never reaches the root. Tie: the function is re-translated from /repo on every run and proved equal to the model, and each of its four call sites (file create, acq create, import request, detector result) is pinned with its argument and its refusal (T1); `file create` / `acq create` are run on the string family; exhaustive/random strings and real remove_filedir runs are evaluated by the model in Coq (T2). Daemon-wide effect confinement is monitored, not proved: in random histories and in scripted symlink scenarios (a request or scan reaching a file through a symlinked directory or file, followed by replication and cleaning) every interposed mutating call must lie, and resolve, inside the root of a node managed by the iterating daemon, and the file outside all roots must survive.",
     "Coq kernel+VM; translator fragment; lexical path model (no symlinks); pathlib normalisation compared by correspondence only",
     "Coq proof (structural induction over strings via a 4-state scanner) + regenerated-model tie + vm_compute correspondence",
     "DESIGN.md §4 C06")
@@ -34,7 +34,7 @@ chk("C08",
     "DESIGN.md §4 C08")
 
 chk("C09",
-    "Coq theorems over the item model (Model/Item.v: one file, its source copy, its destination copy, the request; every task is a script of micro-operations, one per database statement / file-system call; a kill = a prefix of the script + roll-back of the open transaction): for every task (verification of either copy, deletion, group search, transfer by every route, transport and transport behaviour, gate), every start state with healthy copies backed, and every k, the state after a kill at k never records a healthy unreleased copy or a newly completed request without good bytes, never changes the source's bytes and never takes the bytes of a healthy wanted destination copy; every state a kill can leave during an iteration working on a pending transfer heals within three fault-free rounds to the uninterrupted outcome (destination healthy, wanted, good bytes; request no longer pending; source untouched); a released copy is gone one round after a kill anywhere in its deletion; a wanted suspect copy has its verdict one round after. Decided by vm_compute over the complete finite enumeration (11 232 item states x environments x behaviours x crash points) lifted by forallb_forall. Tie (T2): the real daemon is killed at every interposed call of one iteration in single-item worlds (state x environment x transport behaviour) and then runs three rounds; every crash state and round is compared with the model in Coq; effect order pinned from the source text. Import crashes and random multi-item histories with one kill are compared with the uninterrupted run after convergence (monitors).",
+    "Coq theorems over the item model (Model/Item.v: one file, its source copy, its destination copy, the request; every task is a script of micro-operations, one per database statement / file-system call; a kill = a prefix of the script + roll-back of the open transaction): for every task (verification of either copy, deletion, group search, transfer by every route, transport and transport behaviour, gate), every start state with healthy copies backed, and every k, the state after a kill at k never records a healthy unreleased copy or a newly completed request without good bytes, never changes the source's bytes and never takes the bytes of a healthy wanted destination copy; every state a kill can leave during an iteration working on a pending transfer heals within three fault-free rounds to the uninterrupted outcome (destination healthy, wanted, good bytes; request no longer pending; source untouched); a released copy is gone one round after a kill anywhere in its deletion; a wanted suspect copy has its verdict one round after; imports (statement-level model shared with C04, each statement committed on its own): for every index state of the path and every k, a kill after k statements followed by a fresh task for the still-pending request ends with exactly the records of the uninterrupted import. Decided by vm_compute over the complete finite enumeration (11 232 item states x environments x behaviours x crash points) lifted by forallb_forall. Tie (T2): the real daemon is killed at every interposed call of one iteration in single-item worlds (state x environment x transport behaviour) and then runs three rounds; every crash state and round is compared with the model in Coq; effect order pinned from the source text. Import crashes: the records found after a kill at every interposed call must be crash states of the import model, and the restarted daemon's end state the model's (in Coq); random multi-item histories with one kill are compared with the uninterrupted run after convergence (monitors).",
     "Coq kernel+VM; kill = exception at an interposed call with sqlite roll-back (no torn system calls, no OS/disk loss); stand-in transports; tasks on one item do not overlap; item model hand-written, tied by correspondence only; imports covered by monitors and the C04 model, not by the item theorems",
     "Coq proof by complete finite enumeration (vm_compute + forallb_forall) + vm_compute correspondence of crash states and recovery rounds with the real daemon",
     "DESIGN.md §4 C09")
@@ -46,7 +46,7 @@ chk("C20",
     "DESIGN.md §4 C20")
 
 chk("C19",
-    "Coq theorems over the model of QueryWalker.get (the two queries and the wrap loop over the ascending live-id list): every call returns exactly n rows in cyclic order from the cursor, cursor = last+1, DoesNotExist iff empty; coverage for all table sizes, batch sizes (k > N too), start points and arbitrary table changes that keep x: x is returned within floor((m+a)/k)+1 calls (m rows ahead of x, a rows entering that stretch), hence ceil(N/k) when rows are only removed. The unrestricted ceil(N/k)+1 reading is refuted in Coq (C19_starvation_refuted) and on the real walker (known finding KF-C19). Age filter: strict > min age in UTC seconds. Tie: hand-written model, every get() of the real QueryWalker on sqlite (static exhaustive small tables, dynamic random runs) and the real run_auto_verify age filter under 4 time zones evaluated by the model in Coq (T2).",
+    "Coq theorems over the model of QueryWalker.get (the two queries and the wrap loop over the ascending live-id list): every call returns exactly n rows in cyclic order from the cursor, cursor = last+1, DoesNotExist iff empty; coverage for all table sizes, batch sizes (k > N too), start points and arbitrary table changes that keep x: x is returned within floor((m+a)/k)+1 calls (m rows ahead of x, a rows entering that stretch), hence ceil(N/k) when rows are only removed. The unrestricted ceil(N/k)+1 reading is refuted in Coq (C19_starvation_refuted) and on the real walker (known finding KF-C19). Age filter: strict > min age in UTC seconds. Walker life-cycle: dropped only when the node's I/O object was re-created (pinned); consecutive iterations of the real update_loop continue the walk where the previous one stopped (batches compared with the model in Coq, continuity and coverage monitored). Tie: hand-written model, every get() of the real QueryWalker on sqlite (static exhaustive small tables, dynamic random runs) and the real run_auto_verify age filter under 4 time zones evaluated by the model in Coq (T2).",
     "Coq kernel+VM; peewee/sqlite give the query semantics (list reading validated by correspondence); live-id list supplied by the harness",
     "Coq proof (rotation lemma on sorted lists + potential-function induction over runs) + vm_compute correspondence with the real QueryWalker",
     "DESIGN.md §4 C19")
@@ -70,7 +70,7 @@ chk("C13",
     "DESIGN.md §4 C13")
 
 chk("C11",
-    "Coq theorems over an executable model of FairMultiFIFOQueue with one function per critical section and a ghost history, for every operation sequence (operations are single critical sections, so sequences are exactly the interleavings at lock granularity; any number of threads, keys, items): conservation with multiplicities (every put item is queued, deferred, handed out, or discarded by join), never handed out more often than put, per-FIFO order (delivered = prefix of entered), all reported sizes equal the true numbers, idle iff nothing queued or running, join returns only when drained, and the only step enabling join's exit is a task_done whose own notify test holds. Tie: guards and key statements re-translated each run (T1); the real queue runs under the deterministic scheduler (random and enumerated schedules of producer/consumers/joiner), each run is linearised at its lock acquisitions and replayed in the model in Coq (T2).",
+    "Coq theorems over an executable model of FairMultiFIFOQueue with one function per critical section and a ghost history, for every operation sequence (operations are single critical sections, so sequences are exactly the interleavings at lock granularity; any number of threads, keys, items): conservation with multiplicities (every put item is queued, deferred, handed out, or discarded by join), never handed out more often than put, per-FIFO order (delivered = prefix of entered), all reported sizes equal the true numbers, idle iff nothing queued or running, join returns only when drained, and the only step enabling join's exit is a task_done whose own notify test holds; idle reporting (Model/Idle.v): a node is reported idle iff its FIFO holds nothing queued or running, a group iff its own FIFO is empty, its nodes are known and each of them is idle (shape of UpdateableNode.idle / UpdateableGroup.idle pinned, real groups with random queue contents compared in Coq). Tie: guards and key statements re-translated each run (T1); the real queue runs under the deterministic scheduler (random and enumerated schedules of producer/consumers/joiner), each run is linearised at its lock acquisitions and replayed in the model in Coq (T2).",
     "Coq kernel+VM; translator fragment; abstraction of the level sets by in-progress counts; set-iteration choice taken from the implementation and checked admissible; scheduler and linearisation points; virtual clock",
     "Coq proof (invariant with ghost history by induction over all operation sequences) + regenerated guards tie + vm_compute replay of scheduler traces",
     "DESIGN.md §4 C11")
@@ -86,7 +86,7 @@ chk("C10",
     "Coq proof (induction over bodies and clean-up deques, transaction scripts) + handler-shape tie + vm_compute correspondence with the real Worker.run",
     "DESIGN.md §4 C10")
 chk("C14",
-    "Coq theorems: for every history of pull dispatches (any sizes, limits, free-space readings) and task ends, the reserved total equals twice the sizes of the queued-or-running pulls, hence is zero when none, never negative, and release never raises; the release is the first clean-up a pull task registers, so it is started exactly once for every continuation of the body and every database-fault pattern (Worker model); a pull is queued only if 2 x size fits in free space net of reservations and the node is neither under its minimum nor over its limit; refusals and the transport 'fits' test reserve nothing. Tie: guards, reserve_factor, mutex use and the position of the registration in pull_async translated each run (T1); real DefaultNodeIO.pull with a scripted statvfs and real pull tasks ending by every path (already present, no route, transport failure, digest mismatch, success, database error at statement k) run by the real Worker.run, reserved total compared after every event in Coq (T2).",
+    "Coq theorems: for every history of pull dispatches (any sizes, limits, free-space readings) and task ends, the reserved total equals twice the sizes of the queued-or-running pulls, hence is zero when none, never negative, and release never raises; the release is the first clean-up a pull task registers, so it is started exactly once for every continuation of the body and every database-fault pattern (Worker model); a pull is queued only if 2 x size fits in free space net of reservations and the node is neither under its minimum nor over its limit; refusals and the transport 'fits' test reserve nothing; re-creating the node's I/O object (Reinit event: setdefault, pinned) keeps the total. Tie: guards, reserve_factor, mutex use and the position of the registration in pull_async translated each run (T1); real DefaultNodeIO.pull with a scripted statvfs and real pull tasks ending by every path (already present, no route, transport failure, digest mismatch, success, database error at statement k) run by the real Worker.run, reserved total compared after every event in Coq (T2).",
     "Coq kernel+VM; translator fragment; scripted os.statvfs; under_min/over_max booleans taken from the real node properties; one critical section per reserve/release call",
     "Coq proof (history invariant by induction; composition with the Worker clean-up theorem) + regenerated guards tie + vm_compute correspondence",
     "DESIGN.md §4 C14")
